@@ -607,6 +607,10 @@ def apply_chain(body, ch, fired):
         # chain must end here (next token is not another method call of the same chain kind we did not list)
         hits.append((h, j, args))
     cnt = ch.get("count", 1)
+    if not hits and ch.get("optional"):
+        # the pipeline is not there (any more): nothing to route through the template; what replaced it is decided as it stands
+        fired.append(("R-chain skipped (no such pipeline)", 0, ch["recv"] + "." + ".".join(methods)))
+        return body
     if len(hits) != cnt:
         raise LostAnchor("chain %s.%s matches %d times, expected %d" % (ch["recv"], ".".join(methods), len(hits), cnt))
     edits = []
